@@ -1,9 +1,12 @@
 """Staleness oracle shared by the spectrum-object properties (see harness/impl/REUSE.py)."""
 import common as C
 
-MUTATIONS = {"C01": ["mul_inplace", "assign", "fillna", "values"], "C02": ["mul_inplace", "assign", "fillna", "values"],
-             "C03": ["mul_inplace", "assign", "values"], "C04": ["mul_inplace", "assign", "depth", "values"],
-             "C07": ["depth", "mul_inplace"], "C16": ["mul_inplace", "assign", "values"]}
+# "scribble": nothing in the spectrum is modified; the caller overwrites, in place, DERIVED results it was handed
+# (direction_step, e, wavenumber ...) and asks again - on the same object and on another object with an equal grid
+MUTATIONS = {"C01": ["mul_inplace", "assign", "fillna", "values", "scribble"],
+             "C02": ["mul_inplace", "assign", "fillna", "values", "scribble", "scribble"],
+             "C03": ["mul_inplace", "assign", "values", "scribble"], "C04": ["mul_inplace", "assign", "depth", "values", "scribble"],
+             "C07": ["depth", "mul_inplace", "scribble"], "C16": ["mul_inplace", "assign", "values", "scribble"]}
 
 
 def reuse_check(ctx, pid, n_quick=10, n_thorough=120):
@@ -34,6 +37,11 @@ def reuse_check(ctx, pid, n_quick=10, n_thorough=120):
             if bad:
                 k = next((j for j, (x, y) in enumerate(zip(a, b)) if not C.close(x, y, 1e-9, 1e-12)), 0)
                 rep2 = dict(rep, observable=name, reused=a[max(0, k - 1):k + 3], fresh=b[max(0, k - 1):k + 3], index=k)
-                ctx.oracle_fail("%s of a spectrum object that was modified in place (%s) is stale: %r, a fresh object with the same data gives %r"
-                                % (name, c["mutation"], a[k] if k < len(a) else None, b[k] if k < len(b) else None), rep2)
+                if c["mutation"] == "scribble":
+                    ctx.oracle_fail("%s changed (%r -> %r) after the caller overwrote, in place, derived results it had been handed "
+                                    "(direction_step, e, wavenumber ...): the library handed out an object it uses again"
+                                    % (name, b[k] if k < len(b) else None, a[k] if k < len(a) else None), rep2)
+                else:
+                    ctx.oracle_fail("%s of a spectrum object that was modified in place (%s) is stale: %r, a fresh object with the same data gives %r"
+                                    % (name, c["mutation"], a[k] if k < len(a) else None, b[k] if k < len(b) else None), rep2)
                 break
